@@ -6,6 +6,7 @@
 import DateutilVerif.Proofs.RRuleGenHelpers
 import DateutilVerif.Proofs.RRuleGenRebuild
 import DateutilVerif.Proofs.RRuleGenDaysets
+import DateutilVerif.Proofs.RRuleGenCached
 
 namespace C01
 open RRule RrPy RRule.Tables
@@ -73,6 +74,27 @@ theorem gen_rebuild_toInfo (r : Rule) (year month : Int) :
     (Gen.rebuild r {} year month).map RrPy.II.toInfo = RRule.rebuild r year month := by
   rw [gen_rebuild_eq_model]
   cases RRule.rebuild r year month <;> rfl
+
+/-- **`rebuild` on an `_iterinfo` that has been rebuilt before** (`RRuleGen.Coherent`: the slots are the model's `rebuild`
+    of the recorded `lastyear`, and of the recorded `lastmonth` where the nth-weekday mask depends on it): the
+    `lastyear` / `lastmonth` caching of the code returns exactly what recomputing everything (the model) returns. -/
+theorem gen_rebuild_cached_eq_model (r : Rule) (st : RrPy.II) (hst : RRuleGen.Coherent r st) (year month : Int) :
+    Gen.rebuild r st year month =
+      (RRule.rebuild r year month).bind fun info =>
+        .ok (RrPy.II.ofInfo info (some year) (some (RRuleGen.newMonth r st year month))) :=
+  RRuleGen.gen_rebuild_cached r st hst year month
+
+/-- **every call history**: after ANY sequence of successful `rebuild(y, m)` calls on one `_iterinfo` (`RRuleGen.history`:
+    the translated function folded over the calls from the fresh object), the next call raises what the model's pure
+    `rebuild(year, month)` raises or leaves exactly its twelve slots — the caching is unobservable. -/
+theorem gen_rebuild_any_history (r : Rule) (calls : List (Int × Int)) (st : RrPy.II)
+    (h : RRuleGen.history r calls = .ok st) (year month : Int) :
+    (Gen.rebuild r st year month).map RrPy.II.toInfo = RRule.rebuild r year month :=
+  RRuleGen.rebuild_after_history r calls st h year month
+
+-- a history that exercises the cache: same year / other month, then another year
+example : (RRuleGen.history { (default : Rule) with freq := 1, bynweekday := some [(0, 1)] } [(2024, 1), (2024, 2), (2025, 2)]).toOption.map
+    (fun s => (s.lastyear, s.lastmonth, s.yearlen)) = some (some 2025, some 2, 365) := by decide +kernel
 
 /-! ### the day sets
 
